@@ -237,6 +237,7 @@ class FilterGen:
         self.ext = ext
         self.strings = strings or ["a", "b", "ab", "v1", "xaby", ""]
         self.nest = nest
+        self.witnesses = []
 
     def rel_segments(self, singular, depth):
         r = self.r
@@ -304,6 +305,7 @@ class FilterGen:
         r = self.r
         name = r.choice(["match", "search"])
         pattern, witness = gen_regex(r)
+        self.witnesses += [witness, "q" + witness + "k", witness + "zz"]
         if r.random() < 0.8:
             arg2 = ["lit", pattern]
         else:
@@ -366,3 +368,83 @@ def filter_doc(r, names, strings, depth=0):
     if r.random() < 0.5:
         return [val(1) for _ in range(r.randint(1, 5))]
     return {r.choice(names + ["k%d" % i]): val(1) for i in range(r.randint(1, 5))}
+
+
+# ---------------------------------------------------------------- documented extensions (C13)
+
+MEM_LEAVES = ["a", "b", "ab", "xaby", "", "v1", 2, 3, 10, None, 2.5]
+CTX_DEFAULT = {"k": 2, "s": "xaby", "list": ["a", 2, None, "v1"], "o": {"a": 1, "b": {"k": 3}}, "n": None, "names": ["a", "b"]}
+
+
+class ExtFilterGen(FilterGen):
+    """FilterGen plus the documented non-standard constructs."""
+
+    def __init__(self, r, names, **kw):
+        kw.setdefault("ext", True)
+        super().__init__(r, names, **kw)
+
+    def literal(self):
+        r = self.r
+        return ["lit", r.choice(MEM_LEAVES)]
+
+    def collection(self, depth):
+        r = self.r
+        k = r.random()
+        if k < 0.35:
+            return ["list", [r.choice(MEM_LEAVES) for _ in range(r.randint(0, 4))]]
+        if k < 0.55:
+            return ["sq", ["q", "_", [["child", [["name", r.choice(["list", "s", "o", "names", "k", "zz"])]]]]]]
+        if k < 0.7:
+            return ["lit", r.choice(["xaby", "ab", "", "a"])]
+        return ["sq", self.query(True, depth)]
+
+    def elem(self, depth):
+        r = self.r
+        k = r.random()
+        if k < 0.45:
+            return ["lit", r.choice(MEM_LEAVES)]
+        if k < 0.6:
+            return ["key"]
+        return ["sq", self.query(True, depth)]
+
+    def basic(self, depth):
+        r = self.r
+        k = r.random()
+        if k < 0.14:
+            return ["cmp", "in", self.elem(depth), self.collection(depth)]
+        if k < 0.26:
+            return ["cmp", "contains", self.collection(depth), self.elem(depth)]
+        if k < 0.38:
+            pattern, witness = gen_regex(r)
+            flags = "".join(sorted(r.sample("aims", r.randint(0, 2))))
+            self.witnesses += [witness, witness.upper(), "q" + witness, witness + "\n" + witness]
+            return ["cmp", "=~", ["sq", self.query(True, depth)] if r.random() < 0.8 else ["key"], ["regex", pattern, flags]]
+        if k < 0.5:
+            kv = r.choice(self.names + [0, 1, 2, "", "0"])
+            return ["cmp", r.choice(["==", "!=", "<", ">="]), ["key"], ["lit", kv]]
+        if k < 0.6:
+            return ["cmp", r.choice(["==", "!="]), ["sq", self.query(True, depth)], ["undef"]]
+        if k < 0.66:
+            return ["cmp", r.choice(["==", "!="]), ["undef"], ["sq", self.query(True, depth)]]
+        if k < 0.74:
+            return ["test", ["q", "_", [["child", [["name", r.choice(["k", "o", "zz", "n", "list"])]]]] + ([["child", [["name", r.choice(["a", "b", "k"])]]]] if r.random() < 0.4 else [])]]
+        if k < 0.8:
+            return ["cmp", r.choice(CMP_OPS), ["sq", self.query(True, depth)], ["sq", ["q", "_", [["child", [["name", r.choice(["k", "s", "n", "zz"])]]]]]]]
+        return super().basic(depth)
+
+
+def ext_doc(r, names, extra=()):
+    """Documents for the extension class: leaves avoid boolean/number look-alikes (the
+    documentation does not say whether `true in [1]`), strings come from the regex witness pool."""
+    leafs = list(MEM_LEAVES) + ["q-k", "aab", "AB", "x y", "a\nb"] + list(extra) * 3
+
+    def val(d):
+        k = r.random()
+        if d >= 3 or k < 0.4:
+            return r.choice(leafs)
+        if k < 0.72:
+            return {r.choice(names + [""]): val(d + 1) for _ in range(r.randint(0, 3))}
+        return [val(d + 1) for _ in range(r.randint(0, 4))]
+    if r.random() < 0.5:
+        return [val(1) for _ in range(r.randint(1, 5))]
+    return {r.choice(names + ["", "k%d" % i]): val(1) for i in range(r.randint(1, 5))}
